@@ -271,21 +271,21 @@ proof fn lemma_perm_wf(dir: VxPath, a: Shards, b: Shards, exists_: Set<VxPath>)
                 proof {
                     assert(cur_sfi == s[cur] && vx_fs.exists@.contains(s[cur].path));
                     assert(cur_data@ =~= Seq::<u8>::empty() + cur_data@);
-                    assert(data_recs(cur_data@) == recs_of(s[cur].shard_hash));
+                    /*@C10*/ assert(data_recs(cur_data@) == recs_of(s[cur].shard_hash));   // tagged: what was read is the shard of that input
                 }
 //@ before `swap(&mut cur_data, &mut out_data);`
                     proof {
                         assert(sfi == s[i as int] && vx_fs.exists@.contains(s[i as int].path));
                         assert(alt_data@ =~= Seq::<u8>::empty() + alt_data@);
-                        assert(data_recs(alt_data@) == recs_of(s[i as int].shard_hash));
+                        /*@C10*/ assert(data_recs(alt_data@) == recs_of(s[i as int].shard_hash));
                     }
 //@ after `finished_shards.push(cur_sfi.clone());`
                 proof {
-                    assert(finished_shards@.last().shard_hash == s[cur].shard_hash);
+                    /*@C10*/ assert(finished_shards@.last().shard_hash == s[cur].shard_hash);   // tagged: the shard passed through is the input itself
                     lemma_covered_last(s[cur].shard_hash, finished_shards@);
                     assert forall|i2: int| 0 <= i2 < cur implies covered((#[trigger] s[i2]).shard_hash, finished_shards@) by { lemma_covered_push(s[i2].shard_hash, fin0, finished_shards@.last()); }
-                    assert(mid(dir, s, finished_shards@, finished_shard_hashes@, vx_fs.exists@, vx_fs.removed@, cur, ub_idx as int, removed0));
-                    assert(cont_ok(s, finished_shards@, vx_fs.exists@, vx_fs.content@)) by {
+                    /*@C10,C19*/ assert(mid(dir, s, finished_shards@, finished_shard_hashes@, vx_fs.exists@, vx_fs.removed@, cur, ub_idx as int, removed0));
+                    /*@C10,C19*/ assert(cont_ok(s, finished_shards@, vx_fs.exists@, vx_fs.content@)) by {
                         assert forall|k: int| 0 <= k < finished_shards@.len() implies vx_fs.content@[(#[trigger] finished_shards@[k]).path] == recs_of(finished_shards@[k].shard_hash) by {
                             if k < fin0.len() { assert(finished_shards@[k] == fin0[k]); } else { assert(finished_shards@[k] == s[cur]); }
                         }
@@ -296,18 +296,18 @@ proof fn lemma_perm_wf(dir: VxPath, a: Shards, b: Shards, exists_: Set<VxPath>)
                     let f = finished_shards@.last();
                     lemma_cont_write(dir, s, fin0, ex0, ct0, f);
                     assert(finished_shards@ =~= fin0.push(f));
-                    assert(cont_ok(s, finished_shards@, vx_fs.exists@, vx_fs.content@));
+                    /*@C10,C19*/ assert(cont_ok(s, finished_shards@, vx_fs.exists@, vx_fs.content@));
                     assert forall|i2: int| 0 <= i2 < ub_idx implies covered((#[trigger] s[i2]).shard_hash, finished_shards@) by {
                         if i2 < cur { lemma_covered_push(s[i2].shard_hash, fin0, f); } else { lemma_covered_last(s[i2].shard_hash, finished_shards@); }
                     }
-                    assert forall|k: int| 0 <= k < finished_shards@.len() implies vx_fs.exists@.contains((#[trigger] finished_shards@[k]).path) && finished_shard_hashes@.contains(finished_shards@[k].shard_hash) && finished_shards@[k].path == path_of(dir, finished_shards@[k].shard_hash) by {
+                    /*@C10*/ assert forall|k: int| 0 <= k < finished_shards@.len() implies vx_fs.exists@.contains((#[trigger] finished_shards@[k]).path) && finished_shard_hashes@.contains(finished_shards@[k].shard_hash) && finished_shards@[k].path == path_of(dir, finished_shards@[k].shard_hash) by {
                         if k < fin0.len() { assert(finished_shards@[k] == fin0[k]); }
                     }
                     assert forall|i2: int| 0 <= i2 < cur implies gone_or_returned(#[trigger] s[i2], finished_shard_hashes@, vx_fs.exists@) by {
                         assert(gone_or_returned(s[i2], hs0, ex0));
                         axiom_path_of_injective(dir, f.shard_hash, s[i2].shard_hash);
                     }
-                    assert(mid(dir, s, finished_shards@, finished_shard_hashes@, vx_fs.exists@, vx_fs.removed@, cur, ub_idx as int, removed0));
+                    /*@C10,C19*/ assert(mid(dir, s, finished_shards@, finished_shard_hashes@, vx_fs.exists@, vx_fs.removed@, cur, ub_idx as int, removed0));
                 }
 //@ after `while vx_n1 < vx_s1.len()`
                     invariant
@@ -333,7 +333,7 @@ proof fn lemma_perm_wf(dir: VxPath, a: Shards, b: Shards, exists_: Set<VxPath>)
 //@ before `vx_fs.remove_file(path)?;`
                 proof {
                     let g = cur + vx_n2 - 1;
-                    assert(shards_to_remove@[vx_n2 - 1] == (s[g].shard_hash, s[g].path));
+                    /*@C10,C19*/ assert(shards_to_remove@[vx_n2 - 1] == (s[g].shard_hash, s[g].path));   // tagged: the path removed belongs to group member g
                     lemma_remove_step(dir, s, finished_shards@, finished_shard_hashes@, vx_fs.exists@, vx_fs.removed@, cur, ub_idx as int, removed0, g);
                     if vx_fs.exists@.contains(s[g].path) { lemma_remove_pre(dir, s, finished_shards@, finished_shard_hashes@, *vx_fs, cur, ub_idx as int, removed0, g); }
                     lemma_cont_remove(s, finished_shards@, vx_fs.exists@, vx_fs.content@, s[g].path);
